@@ -71,6 +71,13 @@ def register(reg, P):
     fam["scan_reverse_no_xs"] = (lambda x: lax.scan(lambda c, _: (c * 2.0 + 1.0, c), x, None, length=4, reverse=True), [((2,), F32)])
     fam["scan_reverse_no_xs_ys_only"] = (lambda x: lax.scan(lambda c, _: (c + 1.0, c * c), x, None, length=3, reverse=True)[1], [((), F32)])
     fam["scan_reverse_two_xs"] = (lambda xs, ys: lax.scan(lambda c, ab: (c + ab[0], c * ab[1]), 0.5, (xs, ys), reverse=True), [((3,), F32), ((3,), F32)])
+    # batched control flow: examples of one batch leave the loop at different steps (masked carries)
+    fam["vmap_while_nonmonotone"] = (jax.vmap(lambda v: lax.while_loop(lambda s: (s[0] % 4 != 3) & (s[1] < 6), lambda s: (s[0] + 1, s[1] + 1), (v, jnp.int32(0)))), [((3,), I32)])
+    fam["vmap_while_reentrant"] = (jax.vmap(lambda v: lax.while_loop(lambda s: ((s[0] < 1.0) | ((s[0] > 2.0) & (s[0] < 3.0))) & (s[1] < 5), lambda s: (s[0] + 1.0, s[1] + 1), (v, jnp.int32(0)))), [((3,), F32)])
+    fam["vmap_while_monotone"] = (jax.vmap(lambda v: lax.while_loop(lambda s: s < 3.0, lambda s: s + 1.0, v)), [((3,), F32)])
+    fam["vmap_while_flipflop"] = (jax.vmap(lambda v: lax.while_loop(lambda s: (jnp.abs(s[0]) > 0.5) & (s[1] < 4), lambda s: (-s[0] * 0.5, s[1] + 1), (v, jnp.int32(0)))[0]), [((3,), F32)])
+    fam["vmap_cond_pred"] = (jax.vmap(lambda v: lax.cond(v > 0.0, lambda a: a * 2.0, lambda a: a - 1.0, v)), [((3,), F32)])
+    fam["vmap_fori_dyn_upper"] = (jax.vmap(lambda v, n: lax.fori_loop(0, n, lambda i, a: a * 2.0 + 1.0, v)), [((3,), F32), ((3,), I32)])
     fam["scan_no_xs"] = (lambda x: lax.scan(lambda c, _: (c * 2.0, c), x, None, length=3), [((2,), F32)])
     fam["scan_int_carry"] = (lambda xs: lax.scan(lambda c, a: (c + a, c), jnp.int32(0), xs), [((3,), I32)])
     fam["scan_cond_inside"] = (lambda xs: lax.scan(lambda c, a: (lax.cond(a > 0, lambda u: u + a, lambda u: u - a, c), c), 0.0, xs), [((3,), F32)])
